@@ -132,12 +132,10 @@ def table(w):
                 seqs = _sequences(K)
                 for c in range(0, len(seqs), 40):
                     jobs.append((b.id, i, K, seqs[c:c + 40]))
-    import multiprocessing as mp
+    from parmap import parmap
     global _W
     _W = w
-    ctx = mp.get_context('fork')
-    with ctx.Pool(min(14, max(1, len(jobs)))) as pool:
-        res = pool.map(_work_idx, jobs, chunksize=1)
+    res = parmap(_work_idx, jobs)
     tab = {}
     for fn, K, out in res:
         tab.setdefault((fn, K), []).extend(out)
